@@ -73,7 +73,7 @@ func genOverlap(rt *rapid.T, oo overlapOpts) *overlapCase {
 	}
 	// family mode (for A = Close): P -> C -> {G0..Gk}, instances in the grandchildren; A closes C, B closes P
 	if len(oo.AKinds) > 0 && oo.ExtraScopes > 0 && rapid.IntRange(0, 2).Draw(rt, "family") == 0 {
-		ids := identPool(x.M, false)
+		ids := noVoid(identPool(x.M, false))
 		if len(ids) > 0 {
 			kinds := []int{0, 1, 2, 4}
 			x.exec(Op{Kind: "create", Scope: 0, Ctx: rapid.SampledFrom([]int{1, 2}).Draw(rt, "pctx")}) // s1 = P
@@ -125,7 +125,7 @@ func genOverlap(rt *rapid.T, oo overlapOpts) *overlapCase {
 		x.exec(Op{Kind: "create", Scope: parent, Ctx: rapid.SampledFrom([]int{0, 1, 2}).Draw(rt, "ctx")})
 	}
 	// a few warm-up resolutions so that caches are partly filled
-	ids := identPool(x.M, false)
+	ids := noVoid(identPool(x.M, false))
 	if len(ids) == 0 {
 		return c
 	}
@@ -522,6 +522,25 @@ func TestC11Schedules(t *testing.T) {
 		func(c *overlapCase) bool { return true })
 }
 
+// TestC11CreateSchedules: a child scope whose creation overlaps the Close of
+// its parent. If the creation succeeds the child is a descendant like any
+// other and must be completely disposed before the parent disposes its own
+// instances.
+func TestC11CreateSchedules(t *testing.T) {
+	oo := overlapOpts{Gen: dispOpts(), AKinds: []string{"create", "create", "create-gatectx"}, BKinds: []string{"close", "close", "close-ancestor", "pclose", "cancel"},
+		GateKind: allGates, ExtraWarm: 6, ExtraScopes: 4}
+	runOverlapTest(t, "C11", "create-schedules",
+		"controlled two-thread programs: thread A creates a child scope and is parked at the n-th constructor entry/exit reached by its initializer functions (or inside ctx.Done() of the context handed to CreateScope); thread B closes the parent, an ancestor or the provider (or cancels an ancestor's context) and runs until it returns or blocks; A is released, then everything is closed; oracle = C11 stamp oracle over the whole run: a child whose creation succeeded is disposed completely before any ancestor disposes its own instances (scopes whose creation reported an error are exempt), reverse creation order per owner, scopes before singletons; non-trivial = A was parked",
+		oo,
+		func(c *overlapCase) *Failure {
+			if f := c.checkOverlapResults("C11"); f != nil && (f.Oracle == "no-hang" || f.Oracle == "no-panic") {
+				return f
+			}
+			return c.X.checkC11()
+		},
+		func(c *overlapCase) bool { return true })
+}
+
 func TestC12Schedules(t *testing.T) {
 	runOverlapTest(t, "C12", "controlled-schedules",
 		"same programs as the C11 schedules, with every instance of a generated subset of registrations failing in Close(): the Close of a scope is parked inside an instance's Close() while an ancestor or the provider is closed; oracle = C12 per-call oracle (everything in the subtree closed exactly once when a call returns, a call returns a DisposalError iff a failing Close of its subtree ran during it, nothing closed twice) and no hang; non-trivial = A was parked inside a Close()",
@@ -590,7 +609,7 @@ func genMulti(rt *rapid.T, gen kit.GenOpts) *mcase {
 	for i := rapid.IntRange(1, 3).Draw(rt, "nscopes"); i > 0; i-- {
 		x.exec(Op{Kind: "create", Scope: rapid.SampledFrom(x.R.LiveScopes()).Draw(rt, "parent"), Ctx: rapid.SampledFrom([]int{0, 1}).Draw(rt, "ctx")})
 	}
-	ids := identPool(x.M, false)
+	ids := noVoid(identPool(x.M, false))
 	var ctorIDs []kit.Ident
 	for _, id := range ids {
 		if ow, ok := x.M.Owner(id); ok {
